@@ -502,3 +502,18 @@ M("C04", "rotator fit skips the pca inverse for field 2", ROTX, "        Qy = se
 M("C04", "rotator fit does not scale the scores of field 2", ROTX, "        scores1 = scores1 / scaling\n        scores2 = scores2 / scaling\n", "        scores1 = scores1 / scaling\n", "AGREE.factor.extra")
 M("C04", "rotator transform re-sorts field 1 only", ROTX, "            if self.sorted:\n                projections2 = projections2.isel(\n                    mode=self.data[\"idx_modes_sorted\"].values\n                ).assign_coords(mode=projections2.mode)\n", "", "AGREE.resort.each")
 M("C11", "rotator transform re-sorts field 1 only", ROTX, "            if self.sorted:\n                projections2 = projections2.isel(\n                    mode=self.data[\"idx_modes_sorted\"].values\n                ).assign_coords(mode=projections2.mode)\n", "", "SORT.state.transform.each")
+
+# ---------------------------------------------------------------- round 6
+TRF = "xeofs/preprocessing/transformer.py"
+PREP = "xeofs/preprocessing/preprocessor.py"
+M("C02", "MultiIndex levels recorded from the coordinates along the dimension", TRF, "multiindexes[data.name] = [n for n in data.to_index().names]", "multiindexes[data.name] = [n for n, c in data.coords.items() if n != data.name and c.dims == data.dims]", "MIRROR.state.multiindex.levels")
+M("C13", "MultiIndex levels recorded from the coordinates along the dimension", TRF, "multiindexes[data.name] = [n for n in data.to_index().names]", "multiindexes[data.name] = [n for n, c in data.coords.items() if n != data.name and c.dims == data.dims]", "SERIAL.multiindex.levels")
+B("C13", "MultiIndex levels through a local index", TRF, "                if isinstance(data.to_index(), pd.MultiIndex):\n                    multiindexes[data.name] = [n for n in data.to_index().names]", "                idx = data.to_index()\n                if isinstance(idx, pd.MultiIndex):\n                    multiindexes[data.name] = list(idx.names)")
+M("C08", "weights put on the data's grid by position", PREP, '        weights = process_parameter("weights", weights, None, self.n_data)\n', '        weights = process_parameter("weights", weights, None, self.n_data)\n        weights = [w if w is None else w.assign_coords({d: x[d] for d in w.dims if d in x.coords}) for w, x in zip(weights, X)]\n', "WIRE.weights.untouched")
+M("C04", "cross getters scale the stored arrays in place", CP, '            comps1 = comps1 * self.data["norm1"]\n            comps2 = comps2 * self.data["norm2"]\n', '            comps1 *= self.data["norm1"]\n            comps2 *= self.data["norm2"]\n', "AGREE.query_mutates")
+M("C09", "cross getters scale the stored arrays in place", CP, "            scores1 = scores1 / norm1\n            scores2 = scores2 / norm2\n", "            scores1 /= norm1\n            scores2 /= norm2\n", "NORM.query_mutates")
+M("C03", "cross getters scale the stored arrays in place", CP, "            scores1 = scores1 / norm1\n            scores2 = scores2 / norm2\n", "            scores1 /= norm1\n            scores2 /= norm2\n", "MIRROR.query_mutates")
+M("C15", "generator created in the constructor and kept in the PCAs", XBASE, "", "", "RNG.stateful", edits=[("from numpy.random import Generator\n", "from numpy.random import Generator, default_rng\n"), ("        self.pca1 = PCA(\n", "        random_state = default_rng(random_state)\n        self.pca1 = PCA(\n")])
+M("C14", "memoised conjugate transpose of the PCA basis", "xeofs/preprocessing/pca.py", "", "", "HIST.cache", edits=[("import numpy as np\n", "from functools import cached_property\n\nimport numpy as np\n"), ("    def fit(\n        self,\n        X: DataArray,\n        sample_dims: Dims | None = None,", "    @cached_property\n    def _Vh(self):\n        return self.V.conj().T\n\n    def fit(\n        self,\n        X: DataArray,\n        sample_dims: Dims | None = None,")])
+M("C13", "post-compute hook moved into deserialisation", "xeofs/base_model.py", "            setattr(self, str(key), deserialized_obj)\n", "            setattr(self, str(key), deserialized_obj)\n        self._post_compute()\n", "SERIAL.pure")
+M("C07", "rotated loadings mapped whitener-then-pca", ROTX, "        Qx_rot = self.pca1.transform_components(Qx_rot)\n        Qy_rot = self.pca2.transform_components(Qy_rot)\n        Qx_rot = self.whitener1.transform_components(Qx_rot)\n        Qy_rot = self.whitener2.transform_components(Qy_rot)\n", "        Qx_rot = self.whitener1.transform_components(Qx_rot)\n        Qy_rot = self.whitener2.transform_components(Qy_rot)\n        Qx_rot = self.pca1.transform_components(Qx_rot)\n        Qy_rot = self.pca2.transform_components(Qy_rot)\n", "LAYOUT.stage_order")
